@@ -15,6 +15,9 @@ CHECKS = {
                 cap={Q: 20000, T: 10**7}),
     "C07L": dict(spec="TblLifespan", consts={Q: {}, T: {}}, tables=[("VERIF_TABLE_LIFE", "c07life", "life")], cap={Q: 400, T: 10**7}),
     "C10": dict(spec="TblClientAuth", consts={Q: {}, T: {}}, tables=[("VERIF_TABLE_CLIENTAUTH", "c10", "clientauth")], cap={Q: 10**7, T: 10**7}),
+    "C06": dict(spec="TblHmac", consts={Q: {}, T: {}}, tables=[("VERIF_TABLE_HMAC", "c06hmac", "hmac"), ("VERIF_TABLE_JWT", "c06jwt", "jwt")],
+                cap={Q: 10**7, T: 10**7}, n={Q: 4, T: 120}),
+    "C13": dict(spec="TblAuthz", consts={Q: {}, T: {}}, tables=[("VERIF_TABLE_AUTHZ", "c13", "authz")], cap={Q: 16000, T: 10**7}),
     "C11": dict(spec="TblRedirect", consts={Q: {"Depth": 1}, T: {"Depth": 2}},
                 tables=[("VERIF_TABLE_REDIRECT", "c11", "redirect")], cap={Q: 20000, T: 10**7}),
 }
@@ -41,10 +44,11 @@ def gen_tables(c, tier, wd):
     return files, round(time.time() - t0, 1)
 
 
-def run_table(binary, kind, table_file, wd, shards=NCPU, timeout=3000):
+def run_table(binary, kind, table_file, wd, shards=NCPU, timeout=3000, n=1, seed=1):
     def one(i):
         out = os.path.join(wd, f"rep_{kind}_{i}.json")
-        p = run_harness(binary, "TestTable", {"VERIF_TABLE": table_file, "VERIF_TABLE_KIND": kind, "VERIF_OUT": out, "VERIF_SHARD": f"{i}/{shards}"}, timeout=timeout)
+        p = run_harness(binary, "TestTable", {"VERIF_TABLE": table_file, "VERIF_TABLE_KIND": kind, "VERIF_OUT": out, "VERIF_SHARD": f"{i}/{shards}",
+                                               "VERIF_N": str(n), "VERIF_SEED": str(seed)}, timeout=timeout)
         if not os.path.exists(out):
             raise Indeterminate(f"table runner {kind} failed:\n{p.stdout[-2500:]}\n{p.stderr[-2500:]}")
         return json.load(open(out))
@@ -84,7 +88,27 @@ def corrupt_c10(rows, rnd):
     return out
 
 
-CORRUPT = {"c11": corrupt_c11, "c07life": corrupt_c07, "c10": corrupt_c10}
+def corrupt_c13(rows, rnd):
+    out = []
+    cand = [r for r in rows if r["accept"]]
+    for r in rnd.sample(cand, min(3, len(cand))):
+        r = dict(r)
+        r["accept"], r["verdict"] = False, "invalid_request"
+        out.append(r)
+    return out
+
+
+def corrupt_c06(rows, rnd):
+    out = []
+    cand = [r for r in rows if r["accept"]]
+    for r in rnd.sample(cand, min(3, len(cand))):
+        r = dict(r)
+        r["accept"] = False
+        out.append(r)
+    return out
+
+
+CORRUPT = {"c06hmac": corrupt_c06, "c06jwt": corrupt_c06, "c11": corrupt_c11, "c07life": corrupt_c07, "c10": corrupt_c10, "c13": corrupt_c13}
 ATTACHED = {"C07": "C07L"}      # decision tables that are part of a stateful check
 
 
@@ -175,7 +199,7 @@ def run(key, prop, tier, seed, binary, wd):
             rows = rows[:cap]
             tf = os.path.join(wd, f"table_{short}_sample.json")
             json.dump(rows, open(tf, "w"))
-        rep = run_table(binary, kind, tf, wd)
+        rep = run_table(binary, kind, tf, wd, n=c.get("n", {}).get(tier, 1), seed=seed)
         total_rows += full
         total_exec += rep["executed"]
         total_checks += rep["checks"]
